@@ -1,1 +1,281 @@
 // Kani contract harnesses for /repo/parquet/src/arrow/arrow_reader/selection/algebra.rs (child module: sees private items via super::)
+//
+// View (C06): as in selector.rs -- `sel(v, p)`: is row position p selected (false beyond the end), `total(v)`,
+// `rank(v, p)`: number of selected positions below p. Checked pointwise at a symbolic position p; run lengths are
+// unbounded (each <= usize::MAX/16), the NUMBER of runs of each operand is concrete per harness.
+use super::*;
+#[path = "/verif/kani/support/spec.rs"]
+mod spec;
+#[allow(unused_imports)]
+use spec::*;
+use arrow_buffer::Buffer;
+
+const RUN_MAX: usize = usize::MAX >> 4;
+
+fn total(v: &[RowSelector]) -> usize { let mut t = 0usize; for s in v { t += s.row_count; } t }
+fn selected_total(v: &[RowSelector]) -> usize { let mut t = 0usize; for s in v { if !s.skip { t += s.row_count; } } t }
+fn sel(v: &[RowSelector], p: usize) -> bool {
+    let mut start = 0usize;
+    for s in v { if p < start + s.row_count { return !s.skip; } start += s.row_count; }
+    false
+}
+fn rank(v: &[RowSelector], p: usize) -> usize {
+    let (mut start, mut r) = (0usize, 0usize);
+    for s in v {
+        if p <= start { break; }
+        let covered = if p - start < s.row_count { p - start } else { s.row_count };
+        if !s.skip { r += covered; }
+        start += s.row_count;
+    }
+    r
+}
+fn any_runs<const N: usize>(nonzero: bool) -> [RowSelector; N] {
+    let mut a = [RowSelector { row_count: 0, skip: false }; N];
+    let mut i = 0;
+    while i < N {
+        let c: usize = kani::any(); kani::assume(c <= RUN_MAX && (!nonzero || c > 0));
+        a[i] = RowSelector { row_count: c, skip: kani::any() }; i += 1;
+    }
+    a
+}
+/// the run-length representation inside a RowSelection produced by the run-length algebra
+fn runs_of(r: &RowSelection) -> &[RowSelector] {
+    match &r.inner { RowSelectionInner::Selectors(s) => s.as_slice(), RowSelectionInner::Mask(_) => panic!("expected runs") }
+}
+/// canonical form produced by `FromIterator<RowSelector>`: no empty run, adjacent runs alternate
+fn canonical(v: &[RowSelector]) -> bool {
+    let mut i = 0;
+    while i < v.len() { if v[i].row_count == 0 || (i > 0 && v[i - 1].skip == v[i].skip) { return false; } i += 1; }
+    true
+}
+
+// Contract (C06): intersect_row_selections(a, b) = r with total(r) = max(total(a), total(b)) and for every position p:
+//   p < min(total(a), total(b)):  sel(r, p) <=> sel(a, p) and sel(b, p);
+//   otherwise the longer operand's tail passes through (documented behaviour of RowSelection::intersection):
+//   sel(r, p) <=> sel(longer, p).   r is in canonical form (no empty runs, alternating).
+macro_rules! intersect_unit {
+    ($name:ident, $na:expr, $nb:expr, $unw:expr) => {
+        #[kani::proof]
+        #[kani::unwind($unw)]
+        fn $name() {
+            let a = any_runs::<$na>(false); let b = any_runs::<$nb>(false);
+            let r = intersect_row_selections(&a, &b);
+            let rv = runs_of(&r);
+            let (ta, tb) = (total(&a), total(&b));
+            assert!(total(rv) == if ta > tb { ta } else { tb });
+            assert!(canonical(rv));
+            let p: usize = kani::any();
+            let expect = if p < ta && p < tb { sel(&a, p) && sel(&b, p) } else { sel(&a, p) || sel(&b, p) };
+            assert!(sel(rv, p) == expect);
+            kani::cover!(p < ta && p < tb && expect);
+            kani::cover!(p >= ta && expect);                        // right tail passes through
+            kani::cover!(p >= tb && expect);                        // left tail passes through
+            kani::cover!(a[0].row_count == 0 && ta > 0 || $na == 1); // empty runs are skipped
+            kani::cover!(b[0].row_count == 0);
+            kani::cover!($na + $nb < 3 || rv.len() >= 3);
+            std::mem::forget(r);
+        }
+    };
+}
+// @unit name=intersect_row_selections_1_1 props=C06 kind=bounded bound=1+1_runs_(lengths_unbounded) fns=intersect_row_selections timeout=600 tier=thorough confirmed=no_(not_seen_to_finish_under_load)
+intersect_unit!(intersect_row_selections_1_1, 1, 1, 5);
+// @unit name=intersect_row_selections_2_1 props=C06 kind=bounded bound=2+1_runs_(lengths_unbounded) fns=intersect_row_selections mem=4 timeout=900 tier=thorough confirmed=no_(not_seen_to_finish_under_load)
+intersect_unit!(intersect_row_selections_2_1, 2, 1, 6);
+// @unit name=intersect_row_selections_2_2 props=C06 kind=bounded bound=2+2_runs_(lengths_unbounded) fns=intersect_row_selections tier=thorough mem=8 timeout=1800 confirmed=no_(not_seen_to_finish_under_load)
+intersect_unit!(intersect_row_selections_2_2, 2, 2, 7);
+
+// Contract (C06): union_row_selections(a, b) = r with total(r) = max(total(a), total(b)) and for every position p:
+//   sel(r, p) <=> sel(a, p) or sel(b, p)   (beyond the shorter operand the longer one passes through, which is the
+//   same formula since sel is false beyond the end).  r is in canonical form.
+macro_rules! union_unit {
+    ($name:ident, $na:expr, $nb:expr, $unw:expr) => {
+        #[kani::proof]
+        #[kani::unwind($unw)]
+        fn $name() {
+            let a = any_runs::<$na>(false); let b = any_runs::<$nb>(false);
+            let r = union_row_selections(&a, &b);
+            let rv = runs_of(&r);
+            let (ta, tb) = (total(&a), total(&b));
+            assert!(total(rv) == if ta > tb { ta } else { tb });
+            assert!(canonical(rv));
+            let p: usize = kani::any();
+            assert!(sel(rv, p) == (sel(&a, p) || sel(&b, p)));
+            kani::cover!(sel(&a, p) && !sel(&b, p) && p < tb);       // (select, skip)
+            kani::cover!(!sel(&a, p) && sel(&b, p) && p < ta);       // (skip, select)
+            kani::cover!(sel(&a, p) && sel(&b, p));                  // (select, select)
+            kani::cover!(!sel(&a, p) && !sel(&b, p) && p < ta && p < tb);   // (skip, skip)
+            kani::cover!(p >= ta && sel(&b, p)); kani::cover!(p >= tb && sel(&a, p));   // tails
+            kani::cover!(b[0].row_count == 0);                       // empty runs are skipped
+            kani::cover!($na + $nb < 3 || rv.len() >= 3);
+            std::mem::forget(r);
+        }
+    };
+}
+// @unit name=union_row_selections_1_1 props=C06 kind=bounded bound=1+1_runs_(lengths_unbounded) fns=union_row_selections timeout=600 tier=thorough confirmed=no_(not_seen_to_finish_under_load)
+union_unit!(union_row_selections_1_1, 1, 1, 5);
+// @unit name=union_row_selections_2_1 props=C06 kind=bounded bound=2+1_runs_(lengths_unbounded) fns=union_row_selections mem=4 timeout=900 tier=thorough confirmed=no_(not_seen_to_finish_under_load)
+union_unit!(union_row_selections_2_1, 2, 1, 6);
+// @unit name=union_row_selections_2_2 props=C06 kind=bounded bound=2+2_runs_(lengths_unbounded) fns=union_row_selections tier=thorough mem=8 timeout=1800 confirmed=no_(not_seen_to_finish_under_load)
+union_unit!(union_row_selections_2_2, 2, 2, 7);
+
+// Contract (C06): and_then_row_selections(a, b), where b selects among the rows SELECTED by a
+// (precondition from RowSelection::and_then: total(b) = selected_total(a); runs of b non-empty, the RowSelection
+// invariant): returns (no panic) r with total(r) = total(a) and for every position p:
+//   sel(r, p) <=> sel(a, p) and sel(b, rank(a, p)).
+macro_rules! and_then_unit {
+    ($name:ident, $na:expr, $nb:expr, $unw:expr) => {
+        #[kani::proof]
+        #[kani::unwind($unw)]
+        fn $name() {
+            let a = any_runs::<$na>(false); let b = any_runs::<$nb>(true);
+            kani::assume(total(&b) == selected_total(&a));
+            let r = and_then_row_selections(&a, &b);
+            let rv = runs_of(&r);
+            assert!(total(rv) == total(&a));
+            let p: usize = kani::any();
+            assert!(sel(rv, p) == (sel(&a, p) && sel(&b, rank(&a, p))));
+            kani::cover!(sel(rv, p));
+            kani::cover!(sel(&a, p) && !sel(rv, p));
+            kani::cover!($na == 1 || a[0].row_count == 0);                       // empty run of the first operand skipped
+            kani::cover!($na == 1 || (a[$na - 1].skip && a[$na - 1].row_count > 0));   // trailing skip folded in
+            kani::cover!($na + $nb < 4 || rv.len() >= 3);
+            std::mem::forget(r);
+        }
+    };
+}
+// @unit name=and_then_row_selections_1_1 props=C06 kind=bounded bound=1+1_runs_(lengths_unbounded) fns=and_then_row_selections,and_then_iter timeout=600 tier=thorough confirmed=no_(not_seen_to_finish_under_load)
+and_then_unit!(and_then_row_selections_1_1, 1, 1, 6);
+// @unit name=and_then_row_selections_2_1 props=C06 kind=bounded bound=2+1_runs_(lengths_unbounded) fns=and_then_row_selections,and_then_iter mem=4 timeout=900 tier=thorough confirmed=no_(not_seen_to_finish_under_load)
+and_then_unit!(and_then_row_selections_2_1, 2, 1, 7);
+// @unit name=and_then_row_selections_2_2 props=C06 kind=bounded bound=2+2_runs_(lengths_unbounded) fns=and_then_row_selections,and_then_iter tier=thorough mem=8 timeout=1800 confirmed=no_(not_seen_to_finish_under_load)
+and_then_unit!(and_then_row_selections_2_2, 2, 2, 8);
+// @unit name=and_then_row_selections_3_2 props=C06 kind=bounded bound=3+2_runs_(lengths_unbounded) fns=and_then_row_selections,and_then_iter tier=thorough mem=8 timeout=1800 confirmed=no_(not_seen_to_finish_under_load)
+and_then_unit!(and_then_row_selections_3_2, 3, 2, 9);
+
+// Contract (C06): and_then_row_selections REJECTS (panics) a second selection whose length differs from the number
+// of rows selected by the first: whenever it returns, total(b) = selected_total(a). (may-reject unit: the callee's
+// own `expect`/`assert!` failures are the rejections.)
+// @unit name=and_then_row_selections_rejects_2_2 props=C06 kind=bounded bound=2+2_runs_(lengths_unbounded) fns=and_then_row_selections,and_then_iter mayreject=1 mem=4 timeout=900 tier=thorough
+#[kani::proof]
+#[kani::unwind(8)]
+#[kani::stub(alloc::fmt::format, stub_format)]
+fn and_then_row_selections_rejects_2_2() {
+    let a = any_runs::<2>(false); let b = any_runs::<2>(false);
+    let r = and_then_row_selections(&a, &b);
+    assert!(total(&b) == selected_total(&a));
+    kani::cover!(total(&b) > 0);
+    std::mem::forget(r);
+}
+
+// ---------------------------------------------------------------------------------------------
+// mask (bitmap) forms -- shapes (bit offset, length) are concrete per harness (grid rule: they size allocations),
+// bitmap contents are symbolic
+// ---------------------------------------------------------------------------------------------
+
+fn mask_of<const B: usize>(bytes: [u8; B], offset: usize, len: usize) -> BooleanBuffer {
+    BooleanBuffer::new(Buffer::from(bytes.to_vec()), offset, len)
+}
+/// number of set bits of m strictly below position p
+fn mask_rank(m: &BooleanBuffer, p: usize) -> usize { let mut r = 0; let mut i = 0; while i < p && i < m.len() { if m.value(i) { r += 1; } i += 1; } r }
+
+// Contract (C06): intersect_masks(l, r) / union_masks(l, r): len(out) = max(len l, len r); for i < min(len):
+// out[i] = l[i] AND r[i]  (union: OR); beyond the shorter operand the longer one passes through (same convention as the
+// run-length forms). Bit offsets of both operands are non-zero and different.
+macro_rules! masks_unit {
+    ($name:ident, $ol:expr, $ll:expr, $or:expr, $lr:expr) => {
+        #[kani::proof]
+        #[kani::unwind(12)]
+        fn $name() {
+            let l = mask_of::<4>(kani::any(), $ol, $ll);
+            let r = mask_of::<4>(kani::any(), $or, $lr);
+            let and = intersect_masks(&l, &r);
+            let or = union_masks(&l, &r);
+            let (mn, mx) = if $ll < $lr { ($ll, $lr) } else { ($lr, $ll) };
+            assert!(and.len() == mx && or.len() == mx);
+            let i: usize = kani::any(); kani::assume(i < mx);
+            if i < mn {
+                assert!(and.value(i) == (l.value(i) && r.value(i)));
+                assert!(or.value(i) == (l.value(i) || r.value(i)));
+            } else {
+                let longer = if $ll > $lr { l.value(i) } else { r.value(i) };
+                assert!(and.value(i) == longer && or.value(i) == longer);
+            }
+            kani::cover!(i < mn && and.value(i)); kani::cover!(i < mn && !or.value(i));
+            kani::cover!(mn == mx || (i >= mn && and.value(i)));
+        }
+    };
+}
+// @unit name=masks_and_or_3_12_5_12 props=C06 kind=bounded bound=grid_offsets_3,5_len_12,12 fns=intersect_masks,union_masks,combine_equal_length_masks timeout=600 mem=4
+masks_unit!(masks_and_or_3_12_5_12, 3, 12, 5, 12);
+// @unit name=masks_and_or_1_9_2_17 props=C06 kind=bounded bound=grid_offsets_1,2_len_9,17 fns=intersect_masks,union_masks,combine_unequal_length_masks timeout=600 mem=4 tier=thorough
+masks_unit!(masks_and_or_1_9_2_17, 1, 9, 2, 17);
+// @unit name=masks_and_or_9_20_0_7 props=C06 kind=bounded bound=grid_offsets_9,0_len_20,7 fns=intersect_masks,union_masks,combine_unequal_length_masks timeout=600 mem=4 tier=thorough
+masks_unit!(masks_and_or_9_20_0_7, 9, 20, 0, 7);
+
+// Contract (C06): and_then_masks(mask, other) where other has one bit per SET bit of mask (precondition
+// len(other) = popcount(mask), otherwise it panics): len(out) = len(mask) and out[i] = mask[i] AND other[rank(mask, i)].
+macro_rules! and_then_masks_unit {
+    ($name:ident, $om:expr, $lm:expr, $oo:expr, $lo:expr) => {
+        #[kani::proof]
+        #[kani::unwind(12)]
+        #[kani::stub(alloc::fmt::format, stub_format)]
+        fn $name() {
+            let m = mask_of::<2>(kani::any(), $om, $lm);
+            let o = mask_of::<2>(kani::any(), $oo, $lo);
+            kani::assume(mask_rank(&m, $lm) == $lo);
+            let out = and_then_masks(&m, &o);
+            assert!(out.len() == $lm);
+            let i: usize = kani::any(); kani::assume(i < $lm);
+            assert!(out.value(i) == (m.value(i) && o.value(mask_rank(&m, i))));
+            kani::cover!(out.value(i)); kani::cover!(m.value(i) && !out.value(i));
+            kani::cover!(mask_rank(&o, $lo) == 0);                // fast path: nothing selected
+            kani::cover!(mask_rank(&o, $lo) == $lo);              // fast path: everything selected -> clone
+            kani::cover!(mask_rank(&o, $lo) == 2);                // general path
+        }
+    };
+}
+// @unit name=and_then_masks_2_9_1_4 props=C06 kind=bounded bound=grid_mask_offset_2_len_9_other_offset_1_len_4 fns=and_then_masks tier=thorough timeout=1800 mem=8 confirmed=no_(not_seen_to_finish_under_load)
+and_then_masks_unit!(and_then_masks_2_9_1_4, 2, 9, 1, 4);
+
+// Contract (C06): the mixed forms of and_then. `first` selects rows, `second` selects among the selected rows
+// (precondition: it has exactly one entry per selected row of `first`; empty runs excluded).
+//   and_then_selectors_with_mask(first: runs, second: bitmap) = run-length r with total(r) = total(first) and
+//       sel(r, p) <=> sel(first, p) and second[rank(first, p)];
+//   and_then_mask_from_selectors(first: bitmap, second: runs) = bitmap out with len(out) = len(first) and
+//       out[p] <=> first[p] and sel(second, rank(first, p)).
+// Shapes: bitmap of 9 bits at bit offset 2 (concrete), 2 runs of symbolic lengths <= 9.
+// @unit name=and_then_selectors_with_mask_2runs props=C06 kind=bounded bound=2_runs_each_<=9_rows_mask_offset_2_len_5 fns=and_then_selectors_with_mask,and_then_iter,MaskRunIter::next tier=thorough timeout=1800 mem=8 confirmed=no_(not_seen_to_finish_under_load)
+#[kani::proof]
+#[kani::unwind(12)]
+#[kani::stub(alloc::fmt::format, stub_format)]
+fn and_then_selectors_with_mask_2runs() {
+    let (c0, c1): (usize, usize) = (kani::any(), kani::any());
+    kani::assume(c0 >= 1 && c0 <= 9 && c1 >= 1 && c1 <= 9);
+    let first = [RowSelector { row_count: c0, skip: kani::any() }, RowSelector { row_count: c1, skip: kani::any() }];
+    kani::assume(selected_total(&first) == 5);
+    let second = mask_of::<1>(kani::any(), 2, 5);
+    let r = and_then_selectors_with_mask(&first, &second);
+    let rv = runs_of(&r);
+    assert!(total(rv) == c0 + c1);
+    let p: usize = kani::any(); kani::assume(p < c0 + c1);
+    assert!(sel(rv, p) == (sel(&first, p) && second.value(rank(&first, p))));
+    kani::cover!(sel(rv, p)); kani::cover!(sel(&first, p) && !sel(rv, p)); kani::cover!(first[0].skip != first[1].skip);
+    std::mem::forget(r);
+}
+
+// @unit name=and_then_mask_from_selectors_2runs props=C06 kind=bounded bound=mask_offset_2_len_9_2_runs fns=and_then_mask_from_selectors tier=thorough timeout=1800 mem=8 confirmed=no_(not_seen_to_finish_under_load)
+#[kani::proof]
+#[kani::unwind(12)]
+#[kani::stub(alloc::fmt::format, stub_format)]
+fn and_then_mask_from_selectors_2runs() {
+    let first = mask_of::<2>(kani::any(), 2, 9);
+    let (c0, c1): (usize, usize) = (kani::any(), kani::any());
+    kani::assume(c0 >= 1 && c0 <= 9 && c1 >= 1 && c1 <= 9);
+    let second = [RowSelector { row_count: c0, skip: kani::any() }, RowSelector { row_count: c1, skip: kani::any() }];
+    kani::assume(mask_rank(&first, 9) == c0 + c1);
+    let out = and_then_mask_from_selectors(&first, second.iter().copied());
+    assert!(out.len() == 9);
+    let p: usize = kani::any(); kani::assume(p < 9);
+    assert!(out.value(p) == (first.value(p) && sel(&second, mask_rank(&first, p))));
+    kani::cover!(out.value(p)); kani::cover!(first.value(p) && !out.value(p)); kani::cover!(!first.value(8));
+}
